@@ -87,10 +87,15 @@ def quoted_ok(rest, value):
     return z_or(out)
 
 
+SPECIAL_CHARS = ["\u00a0", "\u0301", "\u200d", "\u00e9", "\u3000"]    # no-break space, combining acute, zero-width joiner, é, wide space
+
+
 def h_env(max_len):
-    def mk(n):
+    def mk(n, special=None, pos=0):
         def setup(ctx):
             val = sym_text(ctx, "v", n, VAL_ALPHA)
+            if special is not None:
+                val = val[:pos] + [SInt(ord(special), "char")] + val[pos:]
             ctx.notes["value"] = val
             cfg = mk_struct("TestCaseConfig", detached=none(), environment=MapBuf([[StringBuf([SInt(ord("K"), "char")]), StringBuf(val)]]),
                             keep_crlf=none(), output_stream=none(), skip_document_code=none(), strip_ansi_escaping=none(), timeout=none(), wait=none())
@@ -109,9 +114,11 @@ def h_env(max_len):
     def judge(a, nk, nv):
         return False, "", ""
     inputs = [("value chars=%d" % n, mk(n)) for n in range(0, max_len + 1)]
+    inputs += [("value chars=%d with U+%04X at %d" % (n + 1, ord(sp), pos), mk(n, sp, pos)) for sp in SPECIAL_CHARS for n in range(0, min(max_len, 2) + 1) for pos in range(0, n + 1)]
     h = e2.Harness("one_liner_environment_value", "TestCaseConfig::to_yaml_one_liner", inputs, post, native="one_liner_roundtrip", judge=judge,
                    describe='environment entry is NAME: "<value with \\\\ and \\" escaped>"',
-                   bound="one variable, values of <= %d chars over %r" % (max_len, VAL_ALPHA))
+                   bound="one variable, values of <= %d chars over %r; values of <= 3 chars with one of %s at any position"
+                         % (max_len, VAL_ALPHA, ["U+%04X" % ord(c) for c in SPECIAL_CHARS]))
     h.models_cls = YamlModels
     return h
 
